@@ -73,6 +73,7 @@ def bib_text(db):
             fields.append('%s = {%s}' % (f, cr) if i % 2 == 0 else '%s = "%s"' % (f, cr))
         if i % 2 == 1:
             fields.append('title = {T%d}' % i)
+        fields.append('p%d = {%d}' % (i, i))      # position field: tells the BibTeX engine run which entries' fields an entry sees
         out.append('@%s%s%s,\n  %s\n%s\n' % (['misc', 'Misc', 'MISC'][i % 3], o, k, ',\n  '.join(fields), c))
     return '\n'.join(out)
 
@@ -165,7 +166,7 @@ def impl_command_read(a):
         it.bib_files = [io.StringIO(bib_text(db))]
         it.min_crossrefs = m
         _, cap = _strict_call(strict, it.command_read)
-        return _ci_out(cites, [list(it.citations), _reports(cap, _cands(db, cites))])
+        return _ci_out(cites, [list(it.citations), _reports(cap, _cands(db, cites)), list(it.bib_data.entries.keys())])
     return call_impl(f)
 
 _STYLE = {}
@@ -215,7 +216,10 @@ def impl_py_engine(a):
     return call_impl(f)
 
 _BST_DIR = [None, None]
-BST = 'ENTRY {title}{}{}\nFUNCTION {out} { cite$ write$ newline$ }\nREAD\nITERATE {out}\n'
+NPOS = 10
+BST = ('ENTRY {title %s}{}{}\n' % ' '.join('p%d' % i for i in range(NPOS))
+       + 'FUNCTION {out} { cite$ write$ %s newline$ }\n' % ' '.join('"|" write$ p%d missing$ { "-" } { p%d } if$ write$' % (i, i) for i in range(NPOS))
+       + 'READ\nITERATE {out}\n')
 def _bst_style():
     # a one-line style that prints cite$ of every entry READ selected; lives in a private temp
     # directory of this process, removed at exit
@@ -233,7 +237,18 @@ def impl_bibtex_engine(a):
         from pybtex.bibtex import BibTeXEngine
         out, cap = _strict_call(strict, lambda: BibTeXEngine().format_from_string(
             bib_text(db), style=_bst_style(), citations=list(cites), min_crossrefs=m))
-        return _ci_out(cites, [[l for l in out.split('\n') if l], _reports(cap, _cands(db, cites))])
+        keys = []; seen_keys = []; seen_pos = []
+        for l in out.split('\n'):
+            if not l:
+                continue
+            parts = l.split('|')
+            keys.append(parts[0])
+            pos = [int(v) for v in parts[1:] if v != '-']
+            seen_pos.append(pos)
+            seen_keys.append(sorted(set(low(db[i][0]) for i in pos)))
+        # [cite$ of every entry, reports, per entry the keys of the entries whose fields it sees (compared
+        #  with the model), the same as file positions (for the oracle only)]
+        return _ci_out(cites, [keys, _reports(cap, _cands(db, cites)), seen_keys]) + [seen_pos]
     return call_impl(f)
 
 def impl_select_unfiltered(a):
@@ -267,7 +282,8 @@ FUNCS = {
 }
 
 def canon(fn, r):
-    """reports: multiset of mentioned-key sets (model: [tag, keys]); error class / line ignored"""
+    """reports: multiset of mentioned-key sets (model: [tag, keys]); error class / line ignored;
+    fn 9: the per-entry ancestor lists are compared as sets; the position lists (oracle only) dropped"""
     if not (isinstance(r, list) and r):
         return r
     if r[0] == 1:
@@ -280,7 +296,12 @@ def canon(fn, r):
     def rep(x):
         ks = x[1] if (len(x) == 2 and isinstance(x[0], int)) else x      # model form [tag, [keys]]
         return sorted(k for k in ks if k)
-    return [0, [v[0], sorted(rep(x) for x in v[1])]]
+    out = [v[0], sorted(rep(x) for x in v[1])]
+    if fn == 6 and len(v) > 2:
+        out.append(v[2])
+    if fn == 9 and len(v) > 2:
+        out.append([sorted(set(tuple(k) for k in ks)) for ks in v[2]])
+    return [0, out]
 
 def model_arg(fn, arg):
     return arg
@@ -311,17 +332,83 @@ def spec_resolve(db, cites, m, expand_star=True):
     missing = [c for c in explicit if low(c) not in first]
     return explicit, extra, missing, dangling, first
 
-def filtered_db(db, wanted):
-    """what parse-time filtering keeps (the F13-aware reference; used only to recognise the known finding)"""
+def filtered_db_pos(db, wanted):
+    """what parse-time filtering keeps, with file positions (the F13-aware reference; used only to recognise the known finding)"""
     w = set(low(c) for c in wanted)
     kept = []; have = set()
-    for k, cr in db:
+    for i, (k, cr) in enumerate(db):
         if '*' in w or low(k) in w:
             if low(k) not in have:
-                have.add(low(k)); kept.append((k, cr))
+                have.add(low(k)); kept.append((k, cr, i))
                 if cr is not None:
                     w.add(low(cr))
     return kept
+def filtered_db(db, wanted):
+    return [(k, cr) for k, cr, _ in filtered_db_pos(db, wanted)]
+
+def _firstpos(db):
+    fp = {}
+    for i, (k, cr) in enumerate(db):
+        fp.setdefault(low(k), i)
+    return fp
+
+def closure(db, roots):
+    """the keys (lower-cased) of the database reachable from the roots through the crossref of the FIRST
+    entry of each key; '*' among the roots = every key"""
+    fp = _firstpos(db)
+    todo = list(fp) if '*' in roots else [low(r) for r in roots]
+    seen = set()
+    while todo:
+        q = todo.pop()
+        if q in seen or q not in fp:
+            continue
+        seen.add(q)
+        cr = db[fp[q]][1]
+        if cr is not None:
+            todo.append(low(cr))
+    return seen
+
+def chain_positions(entries, key):
+    """file positions of the entries whose fields `key` sees in a database given as (key, crossref, position)
+    triples (first entry of a key wins): itself, its crossref target, ... until dangling / none / repeat"""
+    first = {}
+    for k, cr, i in entries:
+        first.setdefault(low(k), (cr, i))
+    out = []; q = low(key); vis = set()
+    while q in first and q not in vis:
+        vis.add(q); cr, i = first[q]; out.append(i)
+        if cr is None:
+            break
+        q = low(cr)
+    return sorted(out)
+
+def f13_general(db, cites):
+    """some entry reachable from the citations through crossref chains has its (existing, uncited) crossref
+    target EARLIER in the file, and reading is filtered by the citations (no wildcard)"""
+    cs = set(low(c) for c in cites)
+    if '*' in cs:
+        return False
+    fp = _firstpos(db)
+    for q in closure(db, cites):
+        cr = db[fp[q]][1]
+        if cr is not None and low(cr) in fp and fp[low(cr)] < fp[q] and low(cr) not in cs:
+            return True
+    return False
+
+def _check_kept(db, roots, stored_keys, label):
+    """every entry reachable from the citations through crossref chains is in the filtered database"""
+    have = set(_lows(stored_keys))
+    fp = _firstpos(db)
+    for k in stored_keys:
+        if low(k) not in fp:
+            return '%s: the read database has an entry %r the file does not have' % (label, k)
+    lost = sorted(q for q in closure(db, roots) if q not in have)
+    if lost:
+        msg = '%s: filtered reading lost %r, reachable from the citations %r through cross-references (read database: %r)' % (label, lost, roots, stored_keys)
+        if f13_general(db, roots) and sorted(have) == sorted(_lows([k for k, _ in filtered_db(db, roots)])):
+            return 'F13-pattern: ' + msg
+        return msg
+    return None
 
 def f13_pattern(db, cites):
     """an uncited parent precedes, in file order, a cited child that cross-references it, and
@@ -355,7 +442,7 @@ def _check_selection(db, cites, m, keys, reps, filtered, label):
     want = [k for k in explicit + extra if low(k) not in miss]
     if _lows(keys) != _lows(want):
         msg = '%s: entries %r, the property demands %r' % (label, keys, want)
-        if filtered and f13_pattern(db, cites):
+        if filtered and f13_general(db, cites):
             kdb = filtered_db(db, cites)
             e2, x2, m2, d2, _ = spec_resolve(kdb, cites, m)
             ms2 = set(low(c) for c in m2)
@@ -413,6 +500,7 @@ def oracle(fn, arg, out):
                 for k, _ in ents:
                     if low(k) in sp and sp[low(k)] != k:
                         return 'entry stored as %r although it is cited as %r' % (k, sp[low(k)])
+            return _check_kept(db, wanted, [k for k, _ in ents], FUNCS[fn][0])
         return None
     cites = _keys(arg[1]) if fn != 7 else (_keys(arg[1][0]) if arg[1] else None)
     m = arg[2] if len(arg) > 2 else 1
@@ -427,7 +515,7 @@ def oracle(fn, arg, out):
         if out[0] == 1:
             if missing or dangling:
                 return None
-            if f13_pattern(db, cites):
+            if f13_general(db, cites):
                 return 'F13-pattern: strict run raised although nothing is missing or dangling'
             return None if dup else 'strict run raised although nothing is missing, dangling or repeated'
         if missing or dangling:
@@ -461,14 +549,34 @@ def oracle(fn, arg, out):
             if not _covers(reps, [c, p]):
                 return 'dangling cross-reference %r -> %r was not reported' % (c, p)
         return None
-    return _check_selection(db, cites, m, keys, reps, fn in (6, 8, 9), FUNCS[fn][0])
+    msg = _check_selection(db, cites, m, keys, reps, fn in (6, 8, 9), FUNCS[fn][0])
+    if msg:
+        return msg
+    if fn == 6 and len(out[1]) > 2:
+        return _check_kept(db, cites, _keys(out[1][2]), FUNCS[fn][0])
+    if fn == 9 and len(out[1]) > 3:
+        whole = [(k, cr, i) for i, (k, cr) in enumerate(db)]
+        for k, pos in zip(keys, out[1][3]):
+            want = chain_positions(whole, k)
+            if sorted(pos) != want:
+                msg = '%s: entry %r sees the fields of the entries at file positions %r, in the whole database it inherits from %r' % (FUNCS[fn][0], k, sorted(pos), want)
+                if f13_general(db, cites) and sorted(pos) == chain_positions(filtered_db_pos(db, cites), k):
+                    return 'F13-pattern: ' + msg
+                return msg
+    return None
 
 # ---------------------------------------------------------------------------------------------
+def _sig_cites(fn, arg):
+    if fn in (4, 5):
+        return _keys(arg[1][0]) if arg[1] else None
+    return _keys(arg[1])
 KNOWN_SIGNATURES = {
-    # narrow: the oracle itself recognises the pattern (uncited parent before a cited child, filtered
-    # reading, no wildcard) AND that the output is exactly what dropping those parents explains
-    'F13': lambda kind, fn, arg, detail: (kind == 'oracle' and fn in (6, 8, 9) and isinstance(detail, str)
-                                          and detail.startswith('F13-pattern: ') and f13_pattern(_db(arg[0]), _keys(arg[1]))),
+    # narrow: the oracle itself recognises the pattern (an uncited cross-reference target placed before an entry
+    # reachable from the citations, filtered reading, no wildcard) AND that the output is exactly what
+    # skipping the not-yet-wanted entries explains
+    'F13': lambda kind, fn, arg, detail: (kind == 'oracle' and fn in (4, 5, 6, 8, 9) and isinstance(detail, str)
+                                          and detail.startswith('F13-pattern: ') and _sig_cites(fn, arg) is not None
+                                          and f13_general(_db(arg[0]), _sig_cites(fn, arg))),
 }
 F13_PINNED = {'fn': 6, 'arg': norm([[['P', []], ['C', ['P']]], ['C'], 1, 0])}
 
@@ -586,7 +694,8 @@ def gen(tier, rng):
                     if k % 32 == 0:
                         yield ('exhaustive', 6, [db, cl, m, 0])
                     continue
-                yield ('exhaustive', 3, [db, cl, m])
+                if thorough or k % 2 == 1 or len(cl) <= 2:
+                    yield ('exhaustive', 3, [db, cl, m])
                 if thorough or k % 2 == 0 or len(cl) <= 2:
                     yield ('exhaustive', 6, [db, cl, m, 0])
                 if k % 4 == 0 or (thorough and k % 2 == 0):
@@ -611,6 +720,37 @@ def gen(tier, rng):
                     for m in (1, 2, 3):
                         yield ('exhaustive4', 3, [db, cl, m])
                         yield ('exhaustive4', 6, [db, cl, m, 0])
+    # (a') cross-reference CHAINS under filtered reading: c0 -> c1 -> ... -> cL (L = 0..3), every file order
+    # (children first is the documented one), every subset of the chain cited, optionally '*', optionally a
+    # second child of c1 at the end of the file, min_crossrefs 1..3; through the reader, command_read
+    # (what is left in bib_data.entries), and both engines end to end (the BibTeX run shows which entries'
+    # fields each emitted entry sees)
+    CH = ['c0', 'G1', 'g2', 'H3']
+    CHX = ['c0', 'g1', 'G2', 'H3']            # how the child spells its parent (other case for G1 / g2)
+    jc = 0; jm = 0
+    for L in range(0, 4):
+        ents = [[CH[i], [CHX[i + 1]] if i < L else []] for i in range(L + 1)]
+        for order in itertools.permutations(range(L + 1)):
+            for sib in ((False, True) if L >= 1 else (False,)):
+                db = [ents[i] for i in order] + ([['s9', [CH[1]]]] if sib else [])
+                for mask in range(1 << (L + 1)):
+                    jm += 1
+                    base = [CH[i] for i in range(L + 1) if mask >> i & 1] + (['s9'] if sib and mask & 1 else [])
+                    for cl in (base, ['*'] + base, base + ['*']):
+                        jc += 1
+                        good = list(order) == sorted(order)
+                        if not (thorough or good or (jm + len(cl)) % 3 == 0):
+                            continue
+                        yield ('chains', 5, [db, [cl]])
+                        for m in (1, 2, 3):
+                            if m == 3 and not (thorough or good):
+                                continue
+                            yield ('chains', 6, [db, cl, m, 0])
+                            yield ('chains', 9, [db, cl, m, 0])
+                            if good or thorough:
+                                yield ('chains', 10, [db, cl, m])
+                            if (jc + m) % (4 if thorough else 12) == 0:
+                                yield ('chains', 8, [db, cl, m, 0])
     # (b) structured random: larger databases, repeated keys, mixed-case spellings
     def rkey():
         base = rng.choice(['k%d' % rng.randint(1, 9), 'Key%d' % rng.randint(1, 5), rng.choice(['knuth:84', 'Lamport-86', 'x.y', 'ab', 'Q'])])
@@ -686,7 +826,7 @@ def gen(tier, rng):
         if all(k and k != '' for k, _ in db):
             yield ('malformed', 6, [db, cl, m, 0])
 
-RULE = ('exhaustive: every database of N <= 3 entries (keys x1, Y2, z3; each entry with crossref in {none, X1, Y2, Z3, dangling q9}) x every '
+RULE = ('chains: cross-reference chains of length 0..3 (every file order, every subset of the chain cited, with/without \'*\', with/without a sibling, min_crossrefs 1..3) through the bibtex parser with wanted_entries, command_read (incl. the keys left in bib_data.entries) and both engines end to end; exhaustive: every database of N <= 3 entries (keys x1, Y2, z3; each entry with crossref in {none, X1, Y2, Z3, dangling q9}) x every '
         'citation list up to the length bound over {X1, x1, y2, z3, unknown q9, *} x min_crossrefs 1..min(N,2) (quick) / 1..N (thorough), through add_extra_citations, '
         'Interpreter.command_read (parse-time filtering) and, strided, format_bibliography / unfiltered selection / '
         '_get_crossreferenced_citations; the same databases x wanted lists through BibliographyData(entries, wanted_entries) and the '
@@ -700,7 +840,8 @@ TRUSTED_BASE = ['modelled (not verified) code: pybtex/database/__init__.py 65-10
                 'pybtex/bibtex/interpreter.py 284-306, pybtex/style/formatting/__init__.py 75-91, pybtex/__init__.py 112-165; the .bib syntax layer is not modelled: a file is the list of its (key, crossref) entries '
                 '(the harness renders each database to .bib text with varied delimiters / field-name case and runs the real parser)']
 ASSUMPTIONS = ['str.lower is modelled on ASCII keys (non-ASCII letters in keys are outside the claimed domain, DESIGN.md 2.2)']
-PARTIAL = ['the theorems are about the model of BibliographyData / command_read / format_bibliography; the .bib syntax layer, strict error mode (first report raised) and both engines end to end (\\bibitem / cite$ order) are covered by the correspondence run and the oracle only',
+PARTIAL = ['Entry._find_field is modelled only as the set of entries walked (chain); field values are C14\'s business',
+           'the theorems are about the model of BibliographyData / command_read / format_bibliography; the .bib syntax layer, strict error mode (first report raised) and both engines end to end (\\bibitem / cite$ order) are covered by the correspondence run and the oracle only',
            'filtered_equals_unfiltered / filtered_reports_equal hold under parents_follow_children; without it the statement is refuted (filtered_parent_first_refuted, known finding F13)',
            'min_crossrefs < 1 (outside the property text) behaves like 1 in model and code; the oracle is silent there',
            'citation lists that spell one key in two ways (outside the property text) are compared up to letter case only']
